@@ -4,7 +4,7 @@ from props.opt_common import *
 
 class C01(OptCheck):
     prop = "C01"
-    vfiles = ["Properties/Properties_C01.v"]
+    vfiles = ["Properties/Properties_C01.v", "Tie/Tie_C04.v"]
     corpus = "C01.txt"
     oracle_args = ("oracle", "C01")
     design_ref = "DESIGN.md section 6, C01"
